@@ -117,6 +117,60 @@ theorem double_completion_witness :
     ¬ Disciplined (run 3 true [(0, true), (1, false), (1, true), (2, true)]) :=
   ⟨by decide, fun h => absurd ((disciplinedB_iff _).mpr h) (by decide)⟩
 
+/-! ## a module list that grows while the phase runs (`AddModule` between completions) -/
+
+/-- `doNow` reads `len(m.mods)` live: for any interleaving of completions and `AddModule` calls
+that keeps the discipline, the start log is canonical over `range n'` for a length `n'` between
+the length at `Filter` time and the final one (so every earlier theorem applies with `n'`). -/
+theorem growing_list_canonical (n : Nat) (cmds : List Cmd) (hd : Disciplined (grun n true cmds).2) :
+    ∃ n', n ≤ n' ∧ n' ≤ (grun n true cmds).1.n ∧ canonB (List.range n') (grun n true cmds).2 = true ∧
+      enters (grun n true cmds).2 <+: List.range n' ∧ (finishes (grun n true cmds).2).length ≤ 1 := by
+  obtain ⟨n', h1, h2, hs⟩ := GInv_shape (GInv_grunFrom n cmds _ _ (GInv_init n) hd)
+  exact ⟨n', h1, h2, hs.canon, hs.enters_prefix, hs.finishes_le⟩
+
+/-- **late modules are started**: when a completion makes the start phase report success, every
+module registered *at that moment* — including the ones added while the phase was running — has
+been entered, in registration order. -/
+theorem late_modules_started (n : Nat) (cmds : List Cmd) (w : Nat) (b : Bool)
+    (hd : Disciplined (grun n true (cmds ++ [.call w b])).2)
+    (hfin : (grun n true (cmds ++ [.call w b])).2.getLast? = some (Ev.finish true)) :
+    enters (grun n true (cmds ++ [.call w b])).2 = List.range (grun n true (cmds ++ [.call w b])).1.n := by
+  simp only [grun, grunFrom_snoc_call] at hd hfin ⊢
+  have hpre : Disciplined (grunFrom (filter n true).1 (filter n true).2 cmds).2 := by
+    intro p w' b' q heq
+    exact hd p w' b' (q ++ Ev.call w b :: ((grunFrom (filter n true).1 (filter n true).2 cmds).1.next b).2)
+      (by rw [heq]; simp)
+  have hinv := GInv_grunFrom n cmds _ _ (GInv_init n) hpre
+  have hl := hd (grunFrom (filter n true).1 (filter n true).2 cmds).2 w b _ rfl
+  obtain ⟨_, pos, hp⟩ := GInv_call hinv w b hl
+  generalize (grunFrom (filter n true).1 (filter n true).2 cmds).1 = s at hp hfin ⊢
+  generalize (grunFrom (filter n true).1 (filter n true).2 cmds).2 = tr at hp hfin ⊢
+  have hn : (s.next b).1.n = s.n := by cases b <;> simp [ML.next]
+  rw [hn]
+  rcases hp with ⟨m, _, htr⟩ | ⟨k, m, _, htr⟩ | htr
+  · rw [htr] at hfin; simp at hfin
+  · rw [htr] at hfin; simp at hfin
+  · rw [htr]; simp [enters]
+
+/-- the stop direction never looks at the live length: modules added while a stop phase runs are
+not visited by it -/
+theorem stop_ignores_growth (n : Nat) (cmds : List Cmd) :
+    (grun n false cmds).2 = run n false (cmdCalls cmds) := by
+  by_cases h0 : n = 0
+  · subst h0
+    simp only [grun, run, filter, ↓reduceIte]
+    exact grunFrom_bwd cmds _ _ _ rfl rfl rfl (by simp) (by simp)
+  · simp only [grun, run, filter, h0, ↓reduceIte]
+    exact grunFrom_bwd cmds _ _ _ rfl rfl rfl (by simp; omega) (by simp; omega)
+
+/-- non-vacuity / what the live length means: module 1 registers a third module right before it
+completes; the new module is started and only then success is reported (the mutation that takes
+the length once at the top reports `finish true` right after module 1) -/
+example : (grun 2 true [.call 0 true, .add, .call 1 true, .call 2 true]).2 =
+    [.enter 0, .call 0 true, .enter 1, .call 1 true, .enter 2, .call 2 true, .finish true] := by decide
+example : Disciplined (grun 2 true [.call 0 true, .add, .call 1 true, .call 2 true]).2 :=
+  (disciplinedB_iff _).mp (by decide)
+
 /-! ## baseapp.App: the state guard -/
 
 /-- **state guard**: `App.Start` does nothing unless the state is Prepared; `App.Stop`
